@@ -52,6 +52,9 @@ func runC14(w *World, r *Report) {
 	c14ValidateArg(w, r, vss)
 	c14WritesAfterGate(w, r, ef, gate)
 	c14Lint(w, r, vss)
+	r.Rule("C14/WIRING", "SkipSchemaValidation is bound to its own command-line flag and carried into the install started by upgrade --install", 2)
+	checkCarried(w, r, "C14/WIRING", []string{"SkipSchemaValidation"})
+	checkFlagBinding(w, r, "C14/WIRING", map[string]bool{"SkipSchemaValidation": true})
 }
 
 func isRenderFunc(f *ssa.Function) bool {
